@@ -130,6 +130,7 @@ Definition write_slice (c : tb_cfg) (s : tb_st) (d : bytes) : tb_st * tb_ret :=
       match reached, c_action c with
       | true, Reject => set_limit_intr c s1
       | _, _ =>
+        (* ProcessPartial clamp (commits 71fdc14, 9bda2e1): 0 unless limit > length *)
         let wb' := if reached then Z.max 0 (s_limit s - bb_len (s_buf s)) else wb in
         if (wb' <? 0) || (wb' >? blen d) then (s1, ret_panic)     (* b[:writingBytes] out of range *)
         else
